@@ -1,1 +1,81 @@
-(* C12 *)
+(* C12 - incremental output equals a clean build; unchanged files are untouched.  Theorems only. *)
+From Coq Require Import Lia.
+From Ructe Require Import Nom Utf8 Emit Compile Md5 Static Tables Build MapProofs BuildProofs.
+Local Open Scope list_scope.
+
+(* write_if_changed: afterwards the path holds the content and no other path changed; a physical
+   write happens iff the path did not already hold exactly that content (read_to_string fails on
+   non-UTF-8, so garbage and truncations compare unequal) *)
+Theorem write_if_changed_spec : forall (fs : list (bytes * bytes)) (p c : bytes),
+  let '(fs', wrote) := wic_step fs p c in
+  fs_get p fs' = Some c /\
+  (forall q, q <> p -> fs_get q fs' = fs_get q fs) /\
+  (wrote = false <-> (fs_get p fs = Some c /\ utf8_valid c = true)) /\
+  (wrote = false -> fs' = fs).
+Proof. exact wic_step_spec. Qed.
+
+Section C12.
+  Variable uni_esc uni_alnum : N -> bool.
+  Variable compile : bytes -> bytes -> coutcome.
+  Variable utils_src statics_header : bytes.
+  Variable mm : mime_mode.
+  Notation script := (run_script uni_esc uni_alnum compile utils_src statics_header mm).
+  Notation build := (run_build uni_esc uni_alnum compile utils_src statics_header mm).
+
+  (* the list of (path, content) pairs a run hands to write_if_changed, its stdout and its result
+     are functions of the inputs only: run_build is exec_plan applied to a plan computed without
+     any reference to the prior OUT_DIR *)
+  Theorem write_plan_independent_of_outdir : forall tree base cs fs0,
+    let w := fst (script tree base cs) in
+    r_fs (build tree base fs0 cs) = fst (exec_plan fs0 (plan w)) /\
+    r_writes (build tree base fs0 cs) = snd (exec_plan fs0 (plan w)) /\
+    r_out (build tree base fs0 cs) = render_out (out w) /\
+    r_ok (build tree base fs0 cs) = snd (script tree base cs).
+  Proof.
+    intros tree base cs fs0 w. unfold run_build. subst w.
+    destruct (script tree base cs) as [w ok]. cbn [fst snd].
+    destruct (exec_plan fs0 (plan w)) as [fs1 ws]. cbn. tauto.
+  Qed.
+
+  (* whatever OUT_DIR held before (results of earlier builds, truncated files, garbage: every fs0),
+     each file the run generates ends up with the same content as in a build into an empty directory *)
+  Theorem generated_files_equal_clean_build : forall tree base cs fs0 p,
+    In p (map fst (plan (fst (script tree base cs)))) ->
+    fs_get p (r_fs (build tree base fs0 cs)) = fs_get p (r_fs (build tree base [] cs)).
+  Proof.
+    intros tree base cs fs0 p I.
+    destruct (write_plan_independent_of_outdir tree base cs fs0) as [E _].
+    destruct (write_plan_independent_of_outdir tree base cs []) as [E0 _].
+    cbv zeta in E, E0. rewrite E, E0. now apply planned_independent.
+  Qed.
+
+  (* a run whose inputs have not changed rewrites no file: running the same script again on its
+     own result performs no physical write (planned paths pairwise distinct; contents are Rust
+     Strings, i.e. valid UTF-8) *)
+  Theorem second_run_writes_nothing : forall tree base cs fs0,
+    let pl := plan (fst (script tree base cs)) in
+    NoDup (map fst pl) -> Forall (fun pc => utf8_valid (snd pc) = true) pl ->
+    r_writes (build tree base (r_fs (build tree base fs0 cs)) cs) = [] /\
+    r_fs (build tree base (r_fs (build tree base fs0 cs)) cs) = r_fs (build tree base fs0 cs).
+  Proof.
+    intros tree base cs fs0 pl ND V.
+    destruct (write_plan_independent_of_outdir tree base cs fs0) as [E _]. cbv zeta in E. fold pl in E.
+    destruct (write_plan_independent_of_outdir tree base cs (r_fs (build tree base fs0 cs))) as [E2 [W2 _]].
+    cbv zeta in E2, W2. fold pl in E2, W2. rewrite E in E2, W2.
+    rewrite (second_run_noop pl fs0 ND V) in E2, W2. cbn [fst snd] in E2, W2. rewrite <- E in E2. split; [rewrite E; exact W2|exact E2].
+  Qed.
+End C12.
+
+(* a state left behind by a build that died at a write is just another prior OUT_DIR: the two
+   theorems above quantify over every fs0, so they cover every crash point and every truncation *)
+Example crash_state_is_some_fs0 :
+  let fs_crashed := [(b "templates.rs", b "pub mod templ"); (b "templates/_utils.rs", [255%N; 254%N])] in
+  fst (exec_plan fs_crashed [(b "templates/_utils.rs", b "U"); (b "templates.rs", b "T")]) =
+  fst (exec_plan [(b "templates.rs", [])] [(b "templates/_utils.rs", b "U"); (b "templates.rs", b "T")]) /\
+  snd (exec_plan fs_crashed [(b "templates/_utils.rs", b "U"); (b "templates.rs", b "T")]) = [b "templates/_utils.rs"; b "templates.rs"].
+Proof. vm_compute. split; reflexivity. Qed.
+
+Redirect "assumptions/C12.write_if_changed_spec" Print Assumptions write_if_changed_spec.
+Redirect "assumptions/C12.write_plan_independent_of_outdir" Print Assumptions write_plan_independent_of_outdir.
+Redirect "assumptions/C12.generated_files_equal_clean_build" Print Assumptions generated_files_equal_clean_build.
+Redirect "assumptions/C12.second_run_writes_nothing" Print Assumptions second_run_writes_nothing.
